@@ -5,6 +5,7 @@ import (
 	"context"
 	"encoding/json"
 	"net/http"
+	"net/url"
 
 	"github.com/tailscale/setec/acl"
 	"github.com/tailscale/setec/audit"
@@ -175,6 +176,64 @@ func verifC08Run(ep int) {
 }
 
 type aclRule = acl.Rule
+
+// ---------- C14 at the HTTP layer: handlers are stateless apart from the database ----------
+
+// verifBusyRecorder: while this response is being written, another client's request is served to completion
+// (concurrently: unless it would wait for a lock the first handler holds). The bytes reach the client when Write returns.
+type verifBusyRecorder struct {
+	verifRecorder
+	during func()
+}
+
+func (r *verifBusyRecorder) Write(p []byte) (int, error) {
+	if r.during != nil {
+		f := r.during
+		r.during = nil
+		concurrently(f)
+	}
+	return r.verifRecorder.Write(append([]byte(nil), p...))
+}
+
+func verifPlainRequest(path string, doc []byte) *http.Request {
+	return &http.Request{Method: "POST", URL: &url.URL{Path: path}, RemoteAddr: "100.64.0.1:1234", Body: &verifBody{doc: doc}}
+}
+
+func verifHarnessC14HandlersStateless() {
+	verifDBCalls = nil
+	s := verifServer()
+	verifSymIdentity()
+	verifAddrFails, verifWho.fails, verifWho.tags, verifWho.login = false, false, nil, "user@example.com"
+	verifCaps.plainErr, verifCaps.httpsErr = false, false
+	verifCaps.plain = []acl.Rule{{Action: []acl.Action{acl.ActionGet}, Secret: []acl.Secret{"*"}}}
+	verifReqHeaders = map[string]string{"Content-Type": "application/json", "Sec-X-Tailscale-No-Browsers": "setec"}
+	verifRespHeaders = map[string]string{}
+	nameA, nameB := nondetString("nameA"), nondetString("nameB")
+	assume(nameA != nameB)
+	valA := &api.SecretValue{Value: nondetSeq("valA"), Version: api.SecretVersion(nondetU32("verA"))}
+	valB := &api.SecretValue{Value: nondetSeq("valB"), Version: api.SecretVersion(nondetU32("verB"))}
+	assume(valA.Version != valB.Version)
+	verifDBOutcome = 0
+	verifDBValueFor = map[string]*api.SecretValue{nameA: valA, nameB: valB}
+	docA, _ := json.Marshal(api.GetRequest{Name: nameA})
+	docB, _ := json.Marshal(api.GetRequest{Name: nameB})
+	wA := &verifBusyRecorder{}
+	wA.header = http.Header{}
+	wB := &verifRecorder{header: http.Header{}}
+	wA.during = func() { s.get(wB, verifPlainRequest("/api/get", docB)) }
+
+	s.get(wA, verifPlainRequest("/api/get", docA))
+	joinConcurrent()
+	verifDBValueFor = nil
+
+	assert("both-served", and(wA.status == 200, wB.status == 200, len(wA.body) == 1, len(wB.body) == 1))
+	if len(wA.body) == 1 && len(wB.body) == 1 {
+		var gotA, gotB api.SecretValue
+		assert("first-client-receives-its-own-response", and(jsonBlobAs(wA.body[0], &gotA), gotA.Version == valA.Version, bytesEq(gotA.Value, valA.Value)))
+		assert("second-client-receives-its-own-response", and(jsonBlobAs(wB.body[0], &gotB), gotB.Version == valB.Version, bytesEq(gotB.Value, valB.Value)))
+	}
+	reach("end")
+}
 
 func verifBodyMatches(ep int, body []byte) bool {
 	switch ep {
